@@ -11,7 +11,7 @@ from rdflib import URIRef
 from pyshacl.constraints.constraint_component import ConstraintComponent
 from pyshacl.consts import SH, SH_deactivated, SH_message, SH_select
 from pyshacl.errors import ConstraintLoadError, ValidationFailure
-from pyshacl.helper import get_query_helper_cls
+from pyshacl.helper import get_query_helper_cls, query_from_shapes_graph
 from pyshacl.pytypes import GraphLike, SHACLExecutor
 from pyshacl.shape import Shape
 
@@ -167,7 +167,14 @@ class SPARQLBasedConstraint(ConstraintComponent):
         return non_conformant, reports
 
     def _validate_sparql_query(self, query, init_binds, target_graph):
-        results = target_graph.query(query, initBindings=init_binds)
+        results = query_from_shapes_graph(
+            target_graph, query, init_binds, ConstraintLoadError, "The sh:select of a sh:sparql constraint"
+        )
+        if results.type != "SELECT":
+            raise ConstraintLoadError(
+                "The sh:select of a sh:sparql constraint must be a SELECT query.",
+                "https://www.w3.org/TR/shacl/#SPARQLConstraintComponent",
+            )
         if not results or len(results.bindings) < 1:
             return []
         violations = []
